@@ -222,7 +222,7 @@ def jobs(tier):
                       validate=(5 if q else 2), budget_s=(600 if q else 3000)))
     es_cfgs = [(2, 1, 2, 0, 1, 1, np.inf, 'none', 45), (2, 1, 2, 0, 1, 2, 1, 'sym', 45), (2, 1, 2, 1, 2, 2, np.inf, 'tiny', 45), (2, 1, 2, 0, 1, 1, np.inf, 'zero', 45)]
     if not q:
-        es_cfgs += [(2, 1, 2, v, n, o, nm, rk, 60) for v in (0, 1, 2) for n in (1, 2) for (o, nm, rk) in ((1, np.inf, 'none'), (2, 1, 'sym'))]
+        es_cfgs += [(2, 1, 2, v, n, o, nm, rk, 54) for (v, n) in ((0, 2), (1, 1), (2, 1)) for (o, nm, rk) in ((1, np.inf, 'none'), (2, 1, 'sym'))]
     for (d, lmin, lmax, v, nrbe, out_len, norm, ref_kind, c) in es_cfgs:
         js.append(Job('stop-es[d=%d,l=%d-%d,v=%d,nrbe=%d,out=%d,norm=%s,ref=%s,cap=%d]' % (d, lmin, lmax, v, nrbe, out_len, 'inf' if norm == np.inf else '1', ref_kind, c), stop_rules_es,
                       {'d': d, 'lmin': lmin, 'lmax': lmax, 'version': v, 'nrbe': nrbe, 'out_len': out_len, 'norm': norm, 'ref_kind': ref_kind, 'cap': c, 'pool': 2},
